@@ -3,7 +3,7 @@
 # uses the scratch worktree /tmp/confirm (created on demand, removed by the caller when the round is over)
 set -u
 ID=$1; SRC=$2
-WT=/tmp/confirm; TGT=/tmp/confirm_target
+S=${CONFIRM_SLOT:-}; WT=/tmp/confirm$S; TGT=/tmp/confirm_target$S; L=/tmp/confirm$S
 if [ ! -d $WT ]; then git -C /repo worktree add -q --detach $WT HEAD || exit 2; fi
 cd $WT && git checkout -q --detach $(git -C /repo rev-parse HEAD) && git checkout -q -- . && git clean -fdq crates
 OUT=/verif/seeded/$ID; mkdir -p $OUT
@@ -14,38 +14,38 @@ R=$OUT/confirm.txt; : > $R
 if ! git apply --check $SRC/patch.diff 2>>$R; then echo "PATCH-DOES-NOT-APPLY" | tee -a $R; exit 1; fi
 git apply $SRC/patch.diff
 echo "== demo WITH change (must fail)" >> $R
-cargo test -p rustic_core --test seeded_demo --offline > /tmp/confirm_demo1.log 2>&1; RC1=$?
-grep -E "^test |test result" /tmp/confirm_demo1.log >> $R; echo "exit=$RC1" >> $R
+cargo test -p rustic_core --test seeded_demo --offline > $L.demo1.log 2>&1; RC1=$?
+grep -E "^test |test result" $L.demo1.log >> $R; echo "exit=$RC1" >> $R
 echo "== suite WITH change (only the 4 baseline failures + the demo may fail)" >> $R
-cargo test --workspace --no-fail-fast --offline > /tmp/confirm_suite.log 2>&1
-grep -E "^test .*FAILED|test result: FAILED" /tmp/confirm_suite.log | sort >> $R
+cargo test --workspace --no-fail-fast --offline > $L.suite.log 2>&1
+grep -E "^test .*FAILED|test result: FAILED" $L.suite.log | sort >> $R
 # tests that share the user's cache directory (check::test_check::case_6, ...) fail now and then when several suites
 # run at the same time; a failure outside the baseline set is re-run alone, with the change still applied
-for t in $(python3 - <<'PY'
+for t in $(L=$L python3 - <<'PY'
 import re
 base={"test_error_debug","test_error_display","integration::check::test_check::case_3","integration::check::test_check::case_4"}
-demo=set(re.findall(r"^test (\S+) \.\.\. ", open('/tmp/confirm_demo1.log').read(), re.M))
-failed=set(re.findall(r"^test (\S+) \.\.\. FAILED", open('/tmp/confirm_suite.log').read(), re.M))
+demo=set(re.findall(r"^test (\S+) \.\.\. ", open(__import__('os').environ['L']+'.demo1.log').read(), re.M))
+failed=set(re.findall(r"^test (\S+) \.\.\. FAILED", open(__import__('os').environ['L']+'.suite.log').read(), re.M))
 print(' '.join(sorted(failed-base-demo)))
 PY
 ); do
   echo "== re-run alone: $t" >> $R
-  if cargo test --workspace --offline -- --exact "$t" > /tmp/confirm_rerun.log 2>&1; then
-    echo "passes alone: $t" >> $R; sed -i "s/^test $t \.\.\. FAILED/test $t ... flaky-under-load (passes alone)/" /tmp/confirm_suite.log
+  if cargo test --workspace --offline -- --exact "$t" > $L.rerun.log 2>&1; then
+    echo "passes alone: $t" >> $R; sed -i "s/^test $t \.\.\. FAILED/test $t ... flaky-under-load (passes alone)/" $L.suite.log
   else
     echo "fails alone too: $t" >> $R
   fi
 done
 git apply -R $SRC/patch.diff
 echo "== demo WITHOUT change (must pass)" >> $R
-cargo test -p rustic_core --test seeded_demo --offline > /tmp/confirm_demo2.log 2>&1; RC2=$?
-grep -E "^test |test result" /tmp/confirm_demo2.log >> $R; echo "exit=$RC2" >> $R
+cargo test -p rustic_core --test seeded_demo --offline > $L.demo2.log 2>&1; RC2=$?
+grep -E "^test |test result" $L.demo2.log >> $R; echo "exit=$RC2" >> $R
 rm -f crates/core/tests/seeded_demo.rs; git clean -fdq crates
-OTHER=$(python3 - <<'PY'
+OTHER=$(L=$L python3 - <<'PY'
 import re
 base={"test_error_debug","test_error_display","integration::check::test_check::case_3","integration::check::test_check::case_4"}
-demo=set(re.findall(r"^test (\S+) \.\.\. ", open('/tmp/confirm_demo1.log').read(), re.M))
-failed=set(re.findall(r"^test (\S+) \.\.\. FAILED", open('/tmp/confirm_suite.log').read(), re.M))
+demo=set(re.findall(r"^test (\S+) \.\.\. ", open(__import__('os').environ['L']+'.demo1.log').read(), re.M))
+failed=set(re.findall(r"^test (\S+) \.\.\. FAILED", open(__import__('os').environ['L']+'.suite.log').read(), re.M))
 print(len(failed-base-demo))
 PY
 )
